@@ -23,7 +23,9 @@ LEVEL_TEXT = ("Parameter definitions: the algo_params of every shipped algorithm
               "a reference model computed from the case: result keys == declared names, supplied values converted to "
               "the declared type (type checked exactly) and member of the allowed list, all others == declared "
               "default; any unknown name / invalid value must end in an exception (ValueError/TypeError, SystemExit "
-              "from the CLI helper) and never in a result. Sampling, not proof.")
+              "from the CLI helper) and never in a result. Values include instances of "
+              "subclasses of the declared type (bool, int subclass, numpy.float64), which must come back as the declared "
+              "type; every other call submits the same dict object twice. Sampling, not proof.")
 LEVEL_NOTE = ("Trusted: the reference model in this file. Not asserted (counted under label 'lossy'): a non-integral "
               "float given for an int parameter, where only 'rejected, or a value of the declared type' is required "
               "because the statement does not say whether truncation is a valid conversion. bool/None values and "
